@@ -88,7 +88,7 @@ def run(ctx: core.Ctx) -> int:
         for k, v in zip(cr_dict.keys, cr_dict.values):
             ctx.oblige("TABLES", f"{F}:{q('Create')}", f"Create[{k.value!r}] = {ast.unparse(v)}", ast.unparse(v) == k.value, file=F, func=q("Create"),
                        construct=f"Create {k.value}", msg=f"Create passes {ast.unparse(v)} as '{k.value}'")
-    set_params_rule(ctx, cls)
+    set_params_rule(ctx, cls, ctx.parse(F))
     # ---------------------------------------------------------------- VECTOR (E2 iteration inventory of writer and reader)
     sc = scenarios.PyEKF(ctx, prog, run=())
     it = sc.it
@@ -207,48 +207,172 @@ def run(ctx: core.Ctx) -> int:
                                         "scoring-vector writer/reader", **META)
 
 
-def set_params_rule(ctx, cls):
+def _paths(stmts, prefix=None):
+    """every execution path through a statement list as an ordered sequence of ("stmt", node) / ("cond", test, polarity); loops are opaque statements"""
+    out = [list(prefix or [])]
+    for st in stmts:
+        nxt = []
+        for p_ in out:
+            if p_ and p_[-1][0] == "exit":
+                nxt.append(p_)
+                continue
+            if isinstance(st, ast.If):
+                nxt += _paths(st.body, p_ + [("cond", st.test, True)])
+                nxt += _paths(st.orelse, p_ + [("cond", st.test, False)])
+            elif isinstance(st, (ast.Raise, ast.Return, ast.Continue, ast.Break)):
+                nxt.append(p_ + [("stmt", st), ("exit", st)])
+            else:
+                nxt.append(p_ + [("stmt", st)])
+        out = nxt
+    return out
+
+
+def set_params_rule(ctx, cls, mod=None):
+    """SET-PARAMS, decided on the normalised body (fv.normast) path by path: for every key exactly one of
+         key in allowed_keys            -> setattr(self, key, value) and nothing else
+         else key in asdict(self.config) -> self.config = Config(**d) with d = asdict(self.config) taken in this iteration and d[key] = value
+         else                            -> raise ModelConstructionError, nothing stored"""
+    from .. import normast
     q = lambda n: f"{CLS}.{n}"
-    # ---------------------------------------------------------------- SET-PARAMS
     sp = core.need(core.find_func(cls, "set_params"), q("set_params"))
-    loop = next((s for s in sp.body if isinstance(s, ast.For)), None)
     where = f"{F}:{q('set_params')}"
-    if loop is None or not isinstance(loop.target, ast.Name):
-        raise core.AnalysisError(f"{where}: no `for key in params` loop")
-    key = loop.target.id
+    if mod is not None:
+        sp = normast.Normaliser(normast.class_resolver(mod, cls, module_funcs=False), consts=normast.module_constants(mod)).function(sp)
+    else:
+        sp = normast.Normaliser(None).function(sp)
+    loops = [s_ for s_ in sp.body if isinstance(s_, ast.For)]
     kwn = sp.args.kwarg.arg if sp.args.kwarg else "params"
-    chain = loop.body[0] if loop.body and isinstance(loop.body[0], ast.If) else None
-    pre = [s for s in sp.body if s is not loop and not isinstance(s, ast.Return) and not (isinstance(s, ast.Expr) and isinstance(s.value, ast.Constant))]
-    ok = chain is not None and len(loop.body) == 1 and ast.unparse(loop.iter) in (kwn, f"{kwn}.keys()", f"{kwn}.items()")
-    ctx.oblige("SET-PARAMS", where, "one if/elif/else chain per key", ok, file=F, func=q("set_params"), construct="loop shape",
-               msg="set_params does not decide each key by a single if/elif/else chain")
-    if chain is not None:
-        b1 = ast.unparse(chain.test).replace(" ", "") == f"{key}inself.allowed_keys" and len(chain.body) == 1 and \
-            ast.unparse(chain.body[0]).replace(" ", "") == f"setattr(self,{key},{kwn}[{key}])"
-        ctx.oblige("SET-PARAMS", where, "allowed key -> setattr(self, key, params[key])", b1, file=F, func=q("set_params"), construct="branch allowed",
-                   msg=f"an allowed key is handled by `{ast.unparse(chain.body[0]) if chain.body else None}` under `{ast.unparse(chain.test)}`")
-        b2n = chain.orelse[0] if len(chain.orelse) == 1 and isinstance(chain.orelse[0], ast.If) else None
-        ok2, why2 = False, "no `elif key in dataclasses.asdict(self.config)` branch"
-        if b2n is not None:
-            test_ok = ast.unparse(b2n.test).replace(" ", "") in (f"{key}indataclasses.asdict(self.config)", f"{key}inasdict(self.config)")
-            snap = [s for s in b2n.body if isinstance(s, ast.Assign) and "asdict(self.config)" in ast.unparse(s.value)]
-            upd = [s for s in b2n.body if isinstance(s, ast.Assign) and isinstance(s.targets[0], ast.Subscript)]
-            reb = [s for s in b2n.body if isinstance(s, ast.Assign) and ast.unparse(s.targets[0]) == "self.config"]
-            if test_ok and len(snap) == 1 and len(upd) == 1 and len(reb) == 1:
-                d = ast.unparse(snap[0].targets[0])
-                ok2 = ast.unparse(upd[0]).replace(" ", "") == f"{d}[{key}]={kwn}[{key}]" and ast.unparse(reb[0].value).replace(" ", "") == f"Config(**{d})" \
-                    and b2n.body.index(snap[0]) < b2n.body.index(upd[0]) < b2n.body.index(reb[0])
-                why2 = "the Config field branch does not rebuild Config from asdict(self.config) with exactly this key replaced"
-            elif test_ok:
-                hoisted = any("asdict(self.config)" in ast.unparse(s) for s in pre) or not snap
-                why2 = ("the snapshot asdict(self.config) is not taken inside this key's branch: with several Config fields in one call the earlier "
-                        "ones are overwritten by a stale snapshot") if hoisted else "Config field branch not understood"
-        ctx.oblige("SET-PARAMS", where, "config field -> fresh asdict(self.config), replace key, Config(**d)", ok2, file=F, func=q("set_params"),
-                   construct="branch config", msg=why2)
-        els = b2n.orelse if b2n is not None else []
-        ok3 = len(els) == 1 and isinstance(els[0], ast.Raise) and "ModelConstructionError" in ast.unparse(els[0])
-        ctx.oblige("SET-PARAMS", where, "unknown key -> raise ModelConstructionError", ok3, file=F, func=q("set_params"), construct="branch unknown",
-                   msg="an unknown parameter name is not refused with ModelConstructionError")
-    hoist = [s for s in pre if "asdict" in ast.unparse(s)]
+    if len(loops) != 1:
+        raise core.AnalysisError(f"{where}: no single `for key in params` loop")
+    loop = loops[0]
+    it = ast.unparse(loop.iter).replace(" ", "")
+    if isinstance(loop.target, ast.Name) and it in (kwn, f"{kwn}.keys()", f"list({kwn})", f"list({kwn}.keys())"):
+        key, vals = loop.target.id, {f"{kwn}[{loop.target.id}]"}
+    elif isinstance(loop.target, ast.Tuple) and len(loop.target.elts) == 2 and all(isinstance(e, ast.Name) for e in loop.target.elts) \
+            and it in (f"{kwn}.items()", f"list({kwn}.items())"):
+        key = loop.target.elts[0].id
+        vals = {loop.target.elts[1].id, f"{kwn}[{key}]"}
+    else:
+        ctx.oblige("SET-PARAMS", where, f"loop over `{it}`", False, file=F, func=q("set_params"), construct="loop shape",
+                   msg=f"set_params iterates `{ast.unparse(loop.iter)}` with target `{ast.unparse(loop.target)}`: not every given key with its own value")
+        return
+    pre = [s_ for s_ in sp.body if s_ is not loop and not isinstance(s_, ast.Return)]
+    hoist = [s_ for s_ in pre if "asdict" in ast.unparse(s_)]
     ctx.oblige("SET-PARAMS", where, "no configuration snapshot outside the per-key loop", not hoist, file=F, func=q("set_params"), construct="hoisted snapshot",
-               msg="a snapshot of the configuration is taken before the per-key loop: " + "; ".join(ast.unparse(s)[:60] for s in hoist))
+               msg="a snapshot of the configuration is taken before the per-key loop: " + "; ".join(ast.unparse(s_)[:60] for s_ in hoist)
+                   + " -- with several Config fields in one call the earlier ones are overwritten by the stale snapshot")
+    U = lambda e: ast.unparse(e).replace(" ", "")
+    snap_txt = {"dataclasses.asdict(self.config)", "asdict(self.config)"}
+    seen = {"allowed": 0, "config": 0, "unknown": 0}
+    all_snaps = {a.targets[0].id for a in ast.walk(sp) if isinstance(a, ast.Assign) and len(a.targets) == 1 and isinstance(a.targets[0], ast.Name)
+                 and U(a.value) in snap_txt}
+    # a snapshot variable that is also assigned before the loop carries a snapshot from one key to the next
+    carried = sorted({t.id for s_ in pre for a in ast.walk(s_) if isinstance(a, ast.Assign) for t in a.targets if isinstance(t, ast.Name) and t.id in all_snaps})
+    ctx.oblige("SET-PARAMS", where, "the configuration snapshot does not live across keys", not carried, file=F, func=q("set_params"),
+               construct="carried snapshot", msg=f"the snapshot variable(s) {carried} are initialised before the per-key loop and refreshed only conditionally: "
+               f"with several Config fields in one call the later ones are applied to the snapshot taken for the first, undoing the earlier ones")
+    for path in _paths(loop.body):
+        snaps = {}          # local name -> position of `name = asdict(self.config)` on this path
+        conds = []
+        effects = []
+        for n_, ent in enumerate(path):
+            if ent[0] == "cond":
+                t, pol = ent[1], ent[2]
+                while isinstance(t, ast.UnaryOp) and isinstance(t.op, ast.Not):
+                    t, pol = t.operand, not pol
+                if isinstance(t, ast.Compare) and len(t.ops) == 1 and isinstance(t.ops[0], (ast.In, ast.NotIn)) and U(t.left) == key:
+                    if isinstance(t.ops[0], ast.NotIn):
+                        pol = not pol
+                    subj = U(t.comparators[0])
+                    if subj == "self.allowed_keys":
+                        conds.append(("allowed", pol))
+                        continue
+                    if subj in snap_txt or subj in snaps or subj in all_snaps:
+                        conds.append(("config", pol))
+                        continue
+                if isinstance(t, ast.Compare) and len(t.ops) == 1 and isinstance(t.ops[0], (ast.Is, ast.IsNot)) and U(t.left) in all_snaps \
+                        and U(t.comparators[0]) == "None":
+                    continue            # lazy initialisation of the snapshot: judged by the `carried` obligation above
+                conds.append(("other:" + U(ent[1])[:60], ent[2]))
+            elif ent[0] == "stmt":
+                st = ent[1]
+                if isinstance(st, ast.Assign) and len(st.targets) == 1 and isinstance(st.targets[0], ast.Name) and U(st.value) in snap_txt:
+                    snaps[st.targets[0].id] = n_
+                    continue
+                if isinstance(st, (ast.Raise,)):
+                    effects.append(("raise", U(st.exc) if st.exc is not None else "", n_))
+                elif isinstance(st, (ast.Continue, ast.Pass)):
+                    continue
+                elif isinstance(st, ast.Expr) and isinstance(st.value, ast.Call) and U(st.value.func) == "setattr" and len(st.value.args) == 3:
+                    a = [U(x) for x in st.value.args]
+                    effects.append(("setattr", tuple(a), n_))
+                elif isinstance(st, ast.Assign) and isinstance(st.targets[0], ast.Subscript) and (U(st.targets[0].value) in snaps or U(st.targets[0].value) in all_snaps):
+                    effects.append(("update", (U(st.targets[0].value), U(st.targets[0].slice), U(st.value)), n_))
+                elif isinstance(st, ast.Assign) and U(st.targets[0]) == "self.config":
+                    v = st.value
+                    merged = None
+                    if isinstance(v, ast.Call) and U(v.func) == "Config" and not v.args and len(v.keywords) == 1 and v.keywords[0].arg is None \
+                            and isinstance(v.keywords[0].value, ast.Dict):
+                        dd = v.keywords[0].value
+                        if len(dd.keys) == 2 and dd.keys[0] is None and dd.keys[1] is not None:
+                            merged = (U(dd.values[0]), U(dd.keys[1]), U(dd.values[1]))
+                    if isinstance(v, ast.Call) and U(v.func) in ("dataclasses.replace", "replace") and len(v.args) == 1 and U(v.args[0]) == "self.config" \
+                            and len(v.keywords) == 1 and v.keywords[0].arg is None and isinstance(v.keywords[0].value, ast.Dict) \
+                            and len(v.keywords[0].value.keys) == 1 and v.keywords[0].value.keys[0] is not None:
+                        dd = v.keywords[0].value
+                        merged = ("asdict(self.config)", U(dd.keys[0]), U(dd.values[0]))
+                    if merged is not None:
+                        effects.append(("merged", merged, n_))      # Config(**{**snapshot, key: value}) / replace(self.config, **{key: value})
+                    else:
+                        effects.append(("rebuild", U(st.value), n_))
+                elif isinstance(st, ast.Expr) and isinstance(st.value, ast.Call) and U(st.value.func).split(".")[0] in ("print", "logger", "logging", "warnings"):
+                    continue
+                else:
+                    effects.append(("other", U(st)[:80], n_))
+        cd = dict((c, p_) for c, p_ in conds if not c.startswith("other:"))
+        others = [c for c, _ in conds if c.startswith("other:")]
+        fn_ = q("set_params")
+        if others:
+            ctx.error(f"{where}: the per-key decision also branches on `{others[0][6:]}` (not an enumerated idiom)")
+            continue
+        kinds = [e[0] for e in effects]
+        if cd.get("allowed") is True:
+            seen["allowed"] += 1
+            ok1 = kinds == ["setattr"] and effects[0][1][0] == "self" and effects[0][1][1] == key and effects[0][1][2] in vals
+            ctx.oblige("SET-PARAMS", where, "allowed key -> setattr(self, key, value)", ok1, file=F, func=fn_, construct="branch allowed",
+                       msg=f"an estimator parameter is handled by {[(e[0], e[1]) for e in effects]}; required exactly setattr(self, {key}, <its value>)")
+        elif cd.get("allowed") is False and cd.get("config") is True:
+            seen["config"] += 1
+            ok2, why2 = True, ""
+            ups = [e for e in effects if e[0] == "update"]
+            rbs = [e for e in effects if e[0] == "rebuild"]
+            if kinds == ["merged"]:
+                d, k_, v_ = effects[0][1]
+                fresh = d in snap_txt or (d in snaps and snaps[d] < effects[0][2])
+                if not fresh:
+                    ok2, why2 = False, "the snapshot merged into the new Config is not taken inside this key's iteration"
+                elif k_ != key or v_ not in vals:
+                    ok2, why2 = False, f"the new Config replaces [{k_}] by {v_}; required [{key}] = <the key's value>"
+            elif kinds.count("update") != 1 or kinds.count("rebuild") != 1 or len(effects) != 2:
+                ok2, why2 = False, f"the Config-field branch performs {[(e[0], e[1]) for e in effects]}; required d[key] = value; self.config = Config(**d)"
+            else:
+                d, k_, v_ = ups[0][1]
+                if d not in snaps or snaps[d] > ups[0][2]:
+                    ok2, why2 = False, "the snapshot asdict(self.config) is not taken inside this key's iteration before it is updated"
+                elif k_ != key or v_ not in vals:
+                    ok2, why2 = False, f"the snapshot is updated as {d}[{k_}] = {v_}; required [{key}] = <the key's value>"
+                elif rbs[0][1] != f"Config(**{d})" or rbs[0][2] < ups[0][2]:
+                    ok2, why2 = False, f"self.config is rebuilt as {rbs[0][1]}; required Config(**{d}) after the update"
+            ctx.oblige("SET-PARAMS", where, "config field -> fresh asdict(self.config), replace key, Config(**d)", ok2, file=F, func=fn_,
+                       construct="branch config", msg=why2)
+        elif cd.get("allowed") is False and cd.get("config") is False:
+            seen["unknown"] += 1
+            ok3 = kinds == ["raise"] and "ModelConstructionError" in effects[0][1]
+            ctx.oblige("SET-PARAMS", where, "unknown key -> raise ModelConstructionError", ok3, file=F, func=fn_, construct="branch unknown",
+                       msg=f"an unknown parameter name leads to {[(e[0], e[1][:50] if isinstance(e[1], str) else e[1]) for e in effects]}; required raise ModelConstructionError and nothing else")
+        else:
+            ctx.oblige("SET-PARAMS", where, f"path decided by {conds}", False, file=F, func=fn_, construct="loop shape",
+                       msg=f"a path through the per-key decision is not one of allowed / Config field / unknown: {conds}")
+    for nm, cnt in seen.items():
+        ctx.oblige("SET-PARAMS", where, f"{cnt} path(s) for the {nm} case", cnt >= 1, file=F, func=q("set_params"), construct=f"case {nm}",
+                   msg=f"set_params has no path for the {nm}-key case")
